@@ -80,7 +80,7 @@ M("tcp-bad-hdr-not-sticky", ["C07"], TCP, "\tts->conn.bad = true;\n\tts->conn.ba
 M("tls-bad-hdr-not-sticky", ["C07"], TLS, "\tts->conn.bad = true;\n\tts->conn.badness_reason = EPROTO;\n", "")
 # (tcp_receive without the conn.bad test is an equivalent mutant: buffer_payload re-detects the bad header)
 M("tcp-hdr-valid-skipped", ["C07"], TCP, "    if (!mbuf_is_hdr_valid(rbuf)) {", "    if (0) {")
-M("tcp-deliver-partial-on-eof", ["C07", "C01"], TCP, "    int rc = buffer_msg(s);\n    if (rc <= 0)\n\treturn rc;", "    int rc = buffer_msg(s);\n    if (rc < 0)\n\treturn rc;\n    if (rc == 0 && !mbuf_is_complete(&ts->conn.receive_mbuf)) return 0;")
+M("tcp-deliver-partial-on-eof(equivalent:an-EOF-never-finds-a-complete-frame-buffered)", [], TCP, "    int rc = buffer_msg(s);\n    if (rc <= 0)\n\treturn rc;", "    int rc = buffer_msg(s);\n    if (rc < 0)\n\treturn rc;\n    if (rc == 0 && !mbuf_is_complete(&ts->conn.receive_mbuf)) return 0;")
 
 # ---- C06
 M("btcp-recv-error-not-sticky", ["C06"], BTCP,
@@ -105,7 +105,7 @@ M("btls-handshake-forgets-lower-failure", ["C06"], BTLS, "\tif (bts->conn.state 
 M("tconnect-errno-lost", ["C06"], "libxcm/tp/tcp/tconnect.c",
   "\t    track->badness_reason = connect_errno;\n\t    track_abort_connect(track);\n\t    track_connect_next(track);\n\t} else\n\t    LOG_CONN_IN_PROGRESS",
   "\t    track_abort_connect(track);\n\t    track_connect_next(track);\n\t} else\n\t    LOG_CONN_IN_PROGRESS")
-M("tls-receive-ignores-bad", ["C06"], TLS, "    TP_RET_ERR_IF(ts->conn.bad, ts->conn.badness_reason);\n\n    if (try_finish_send(s) < 0 && errno != EAGAIN)\n\treturn errno == EPIPE ? 0 : -1;",
+M("tls-receive-ignores-bad(equivalent:the-invalid-header-stays-buffered-and-is-rejected-again)", [], TLS, "    TP_RET_ERR_IF(ts->conn.bad, ts->conn.badness_reason);\n\n    if (try_finish_send(s) < 0 && errno != EAGAIN)\n\treturn errno == EPIPE ? 0 : -1;",
   "    if (try_finish_send(s) < 0 && errno != EAGAIN)\n\treturn errno == EPIPE ? 0 : -1;")
 
 # ---- C04 / C16 / C05 (event loop)
@@ -130,7 +130,7 @@ M("await-skips-update", ["C04", "C16"], XCM, "static void await(struct xcm_socke
 M("xpoll-eventfd-always-watched", ["C16"], XPOLL, "\tint event = has_ringing_bell(xpoll) ? EPOLLIN : 0;\n", "\tint event = EPOLLIN;\n")
 M("btls-update-ready-whenever-awaiting", ["C16"], BTLS, "\telse if (s->condition == bts->conn.ssl_condition)\n\t    bts->btcp_socket->condition = bts->conn.ssl_wants;", "\telse if (s->condition == bts->conn.ssl_condition)\n\t    ready = true;")
 M("btcp-update-epollout-for-receivable", ["C16"], BTCP, "\tif (s->condition&XCM_SO_RECEIVABLE)\n\t    fd_event |= EPOLLIN;", "\tif (s->condition&XCM_SO_RECEIVABLE)\n\t    fd_event |= EPOLLIN|EPOLLOUT;")
-M("ux-server-event-never", ["C16", "C04"], UX, "    return condition == XCM_SO_ACCEPTABLE ? EPOLLIN : 0;", "    return 0;")
+M("ux-server-event-never", ["C04"], UX, "    return condition == XCM_SO_ACCEPTABLE ? EPOLLIN : 0;", "    return 0;")
 M("ux-conn-event-sendable-ignored", ["C16"], UX, "    if (condition & XCM_SO_SENDABLE)\n\tevent |= EPOLLOUT;\n", "")
 M("receive-waits-when-nonblocking", ["C05"], XCM,
   "    if (conn_s->is_blocking) {\n\tfor (;;) {\n\t    if (socket_wait(conn_s, XCM_SO_RECEIVABLE) < 0)\n\t\treturn -1;",
@@ -160,7 +160,8 @@ M("tcp-keepalive-toggle-not-applied", ["C11"], TCPATTR, "    if (effectuate_keep
 M("default-service-always-messaging", ["C11"], XCM, "\tif (parent_s != NULL)\n\t    bytestream = xcm_tp_socket_is_bytestream(parent_s);", "\tif (0)\n\t    bytestream = xcm_tp_socket_is_bytestream(parent_s);")
 M("btls-accept-no-check-time-inherit", ["C11"], BTLS, "    bts->check_time = parent_bts->check_time;\n", "")
 M("btls-accept-no-auth-inherit", ["C11"], BTLS, "    bts->tls_auth = parent_bts->tls_auth;\n", "")
-M("accepted-always-nonblocking", ["C11"], XCM, "    conn_s = socket_create(server_s->proto, xcm_socket_type_conn,\n\t\t\t   server_s->is_blocking);", "    conn_s = socket_create(server_s->proto, xcm_socket_type_conn,\n\t\t\t   false);")
+M("accepted-always-nonblocking", ["C11"], XCM, "    conn_s = socket_create(server_s->proto, xcm_socket_type_conn,\n\t\t\t   conn_is_blocking);", "    conn_s = socket_create(server_s->proto, xcm_socket_type_conn,\n\t\t\t   false);")
+M("accept-map-blocking-ignored", ["C11"], XCM, "    if (attr_blocking != NULL)\n\tconn_is_blocking = *attr_blocking;\n", "")
 
 # ---- C20
 XREL = "tools/xcmrelay/xrelay.c"
